@@ -380,6 +380,41 @@ DIRECTED += [
 ]
 
 
+
+# operand VALUES of every depth: element-wise equal vectors / tuples / mixed, nested 1 .. 400 deep (built by loops; a grammar of bounded depth
+# never builds them), compared with ==, != and in a condition; and the same with one leaf changed at the very bottom
+def deep_operand_scenario():
+    depths = [1, 2, 3, 15, 16, 17, 31, 32, 33, 47, 48, 49, 50, 63, 64, 65, 100, 127, 128, 129, 255, 256, 257, 400]
+    src = ('fn vecs(n, leaf) { var t = [leaf]; for i in 0..n { t = [i, t]; } return t; }\n'
+           'fn tups(n, leaf) { var t = (leaf,); for i in 0..n { t = (i, t); } return t; }\n'
+           'fn mixed(n, leaf) { var t = [leaf]; for i in 0..n { if i %% 2 == 0 { t = (t, i); } else { t = [t, "s"]; } } return t; }\n'
+           'fn row(n, mk) { var a = mk(n, 0); var b = mk(n, 0); var c = mk(n, 1); var verdict = "different"; if a == b { verdict = "equal"; }\n'
+           '  return [n, a == b, a != b, b == a, a == c, a != c, verdict]; }\n'
+           'for n in [%s] { print(row(n, vecs)); print(row(n, tups)); print(row(n, mixed)); }\n' % ", ".join(str(d) for d in depths))
+    exp = []
+    for d in depths:
+        exp += ["[%d, true, false, true, false, true, equal]" % d] * 3
+    return ("operand-values-of-every-depth", src, exp)
+
+
+# one number has ONE text wherever an expression turns it into text: print, interpolation, String.from, as an element of a printed
+# container, as a part of a longer interpolation - for the special values, whole numbers on both sides of 2^53 and 2^63, and fractions
+def number_text_positions_scenario():
+    vals = [("0", 0.0), ("0 * -1", -0.0), ("1", 1.0), ("-1", -1.0), ("0.5", 0.5), ("1 / 3", 1 / 3), ("p2(53)", 2.0 ** 53), ("p2(53) + 2", 2.0 ** 53 + 2), ("p2(62)", 2.0 ** 62),
+            ("p2(63)", 2.0 ** 63), ("0 - p2(63)", -(2.0 ** 63)), ("p2(63) - 1024", 2.0 ** 63 - 1024), ("p2(64)", 2.0 ** 64), ("p2(70)", 2.0 ** 70), ("p10(15)", 1e15), ("p10(21)", 1e21), ("p10(22)", 1e22),
+            ("p10(15) + 0.5", 1e15 + 0.5), ("1 / p10(7)", 1e-7), ("1 / 0", float("inf")), ("-1 / 0", float("-inf")), ("123456789.125", 123456789.125), ("4294967296", 4294967296.0), ("p2(31) * -1", -(2.0 ** 31))]
+    src = ('fn p2(k) { var r = 1; for i in 0..k { r = r * 2; } return r; }\nfn p10(k) { var r = 1; for i in 0..k { r = r * 10; } return r; }\n'
+           'fn show(x) { print(x); print("${x}"); print(String.from(x)); print("<${x}|${x}>"); print([x]); print("${[x]}"); print("${x}" == String.from(x)); }\n')
+    exp = []
+    for e, v in vals:
+        src += "show(%s);\n" % e
+        t = ref.display(ref.num(v))
+        exp += [t, t, t, "<%s|%s>" % (t, t), "[%s]" % t, "[%s]" % t, "true"]
+    return ("one-number-one-text-in-every-position", src, exp)
+
+
+DIRECTED += [deep_operand_scenario(), number_text_positions_scenario()]
+
 ASSIGN_OPS = {"=": "3", "+=": "11", "-=": "5", "*=": "24", "/=": "2.6666666666666665", "%=": "2", "&=": "0", "|=": "11", "^=": "11", "<<=": "64", ">>=": "1"}
 ASSIGN_TARGETS = {"local": "loc", "global": "glob", "property": "c.n", "index": "v[0]", "self-field": None, "nested-index": "w[0][0]", "chained": "c.inner.n"}
 # an assignment may not stand where an operand of a tighter-binding operator is expected ...
